@@ -565,8 +565,8 @@ theorem C16_filter_order (pl : List Cand) (slate : List Cand) :
 
 /-- The full distributional statement for the slate models that draw on the *combined* interval and
 restrict (CambridgeSampler): restricting a Plackett–Luce order to a slate is Plackett–Luce on that
-slate's supports. Stated, not proved here (it needs the marginalisation identity of successive
-sampling); the correspondence check compares the draws themselves. -/
+slate's supports. Stated here; proved in `VK.Props.C16Restrict` (`C16_pl_restriction`,
+`C16_PLRestrictionConsistent`) by the marginalisation identity of successive sampling. -/
 def PLRestrictionConsistent : Prop :=
   ∀ (x : List (Cand × Rat)) (slate : List Cand) (r : List Cand),
     (x.map (·.1)).Nodup → (∀ e ∈ x, (0 : Rat) < e.2) →
